@@ -110,6 +110,18 @@ func c14(args []string) int {
 	if c.n > 0 {
 		nWrites = c.n
 	}
+	if c.extra == "fallback-trace" {
+		// one write through the fallback writer into the sacrificial region, meant to run under a syscall tracer: the check
+		// reads which protections the pages of the region pass through
+		off := 2*int(ps) - 5 // straddles a page boundary
+		data := []byte{1, 2, 3, 4, 5, 6, 7, 8, 9, 10, 11, 12, 13}
+		err := memory.VerifWriteToFallback(base+uintptr(off), data)
+		back := append([]byte{}, rawView(base+uintptr(off), len(data))...)
+		out.Put(map[string]interface{}{"kind": "fallback-trace", "base": fmt.Sprint(base), "page0": fmt.Sprintf("%#x", base+uintptr(ps)), "page1": fmt.Sprintf("%#x", base+uintptr(2*int(ps))),
+			"pagesize": ps, "err": err != nil, "landed": bytes.Equal(back, data), "perms_after": pagePerms(base, base+uintptr(region))})
+		memory.WriteTo(base+uintptr(off), shadow[off:off+len(data)])
+		return 0
+	}
 	out.Put(map[string]interface{}{"kind": "region", "base": fmt.Sprint(base), "pagesize": ps, "npages": npages,
 		"perms_before": pagePerms(base, base+uintptr(region))})
 	diffBad, permBad := 0, 0
